@@ -44,6 +44,14 @@ CHECKS = {
         "In-memory transports mark themselves closed synchronously in aclose() like the asyncio adapter; one listed known finding (D7) is reported as KNOWN-FINDING.",
         "DESIGN.md section 3 C14",
     ),
+    "C04": (
+        "exploration",
+        "property-based fault injection: generated chunk sequences x per-call socket fault scripts under a fake selector and virtual clock; byte-exact oracle + deterministic non-termination detection",
+        "SocketStreamTransport (sendmsg path, base-class path, SC_IOV_MAX variants) and StreamEndpoint.send_packet over a scripted socket.socket subclass: bytes accepted by the 'kernel' must equal the concatenated chunks "
+        "(a prefix on failure), the call must end (select() with nothing scheduled or 2000 calls without progress = violation), waits never exceed the timeout; async TLS write backlog checked against the stdlib-ssl peer.",
+        "Socket behaviour is simulated (script + capacity model), not a kernel; blocking SSLStreamTransport and the asyncio adapter are covered by other layers/checks when present.",
+        "DESIGN.md section 3 C04",
+    ),
 }
 
 PENDING = {}
